@@ -225,7 +225,11 @@ class Stream:
                 self._notify('stream_succeeded', self)
 
         elif self.state == 'REMAP':
-            self.target_addr = maybe_ip_addr(args[3][:args[3].rfind(':')])
+            addr = args[3][:args[3].rfind(':')]
+            if addr.startswith('[') and addr.endswith(']'):
+                # an IPv6 address is printed as [addr]:port
+                addr = addr[1:-1]
+            self.target_addr = maybe_ip_addr(addr)
 
         elif self.state == 'CLOSED':
             if self.circuit:
